@@ -118,6 +118,10 @@ def compiled_children(ast) -> list:
         return [ast[1], ast[2]]
     if k in ("task", "ptask", "nout"):
         subs = list(ast[2].values())
+        if k == "task" and "optexpr" in ast[3]:
+            subs.extend(ast[3]["optexpr"].values())
+        if k == "task" and "ctxe" in ast[3]:
+            subs.extend(ast[3]["ctxe"].values())
         if k == "task" and "d" in ast[3]:
             subs.append(ast[3]["d"])
         return subs
@@ -199,12 +203,23 @@ def interp(ast, env, cx):
         opts = ast[3] if k != "nout" else {}
         names = list(binds)
         cx2 = merge_ctx(cx, opts["ctx"]) if "ctx" in opts else cx
+        if "ctxe" in opts:
+            # expression-valued overrides are task options: evaluated (by the parent job) before use
+            keys = list(opts["ctxe"])
+            ov = par([interp(opts["ctxe"][key], env, cx) for key in keys])
+            if ov.errs or len(ov.oks) != 1:
+                return Out([], ov.errs, True) if not ov.errs else Out([], ov.errs)
+            cx2 = merge_ctx(cx2, dict(zip(keys, ov.oks[0])))
 
         def call(vals):
             env2 = dict(zip(names, vals))
             if opts.get("t") == "dnode":
                 env2["d"] = 7
                 env2["d2"] = 3
+            if opts.get("t") == "cnode":
+                # defaults are evaluated with the context of the job being called
+                env2["c"] = ctx_lookup(cx2, "a", "none")
+                env2["c2"] = ctx_lookup(cx2, "b.x", 0)
             if "d" in opts:
                 env2["d"] = vals[len(names)]
             if opts.get("executor") == "nope":
